@@ -123,6 +123,34 @@ func dumpDebug(w *World, what string) {
 		})
 		return
 	}
+	if strings.HasPrefix(what, "facts:") {
+		// path facts before every call of the function: facts:pkg:fn
+		parts := strings.SplitN(what, ":", 3)
+		fn := w.Fn(parts[1], parts[2])
+		pf := newPathFacts(fn)
+		for _, c := range callsIn(fn) {
+			var fs []string
+			for k := range pf.At(c) {
+				n := k.v.Name()
+				if ci, ok := k.v.(ssa.CallInstruction); ok {
+					n += "=" + short(calleeName(ci))
+				}
+				switch k.k {
+				case fNil:
+					fs = append(fs, "nil("+n+")")
+				case fNonNil:
+					fs = append(fs, "nonnil("+n+")")
+				case fHappened:
+					fs = append(fs, "did("+n+")")
+				case fEq:
+					fs = append(fs, n+"=="+k.w.Name())
+				}
+			}
+			sort.Strings(fs)
+			fmt.Printf("  %s b%d %s disj=%d: %s\n", w.Pos(instrPos(c)), c.Block().Index, short(calleeName(c)), len(pf.in[c.Block()]), strings.Join(fs, " "))
+		}
+		return
+	}
 	switch what {
 	case "sql":
 		for _, s := range sqlSites(w) {
